@@ -3,6 +3,7 @@ package funcs
 import (
 	"errors"
 	"fmt"
+	"google.golang.org/protobuf/proto"
 	"reflect"
 
 	"github.com/verily-src/fhirpath-go/fhirpath/internal/expr"
@@ -79,6 +80,11 @@ func ToFunction(fn any) (Function, error) {
 	return Function{fhirpathFunc, arity, arity, false}, nil
 }
 
+var (
+	systemAnyType    = reflect.TypeOf((*system.Any)(nil)).Elem()
+	protoMessageType = reflect.TypeOf((*proto.Message)(nil)).Elem()
+)
+
 // validateFunc verifies that the input reflect value represents a
 // valid FHIRPath function. If not, it returns an error.
 func validateFunc(rv reflect.Value) error {
@@ -91,6 +97,15 @@ func validateFunc(rv reflect.Value) error {
 	} else if rv.Type().In(0) != reflect.TypeOf(system.Collection{}) || rv.Type().IsVariadic() {
 		// (a variadic parameter list is not a fixed one: its last parameter is a slice no argument can match)
 		errs = append(errs, errInvalidParams)
+	} else {
+		// An argument is an item of a collection: a System value or a FHIR element.
+		// A parameter of a type that none of them can be assigned to (int, string,
+		// a struct) makes a function that compiles but can never be called.
+		for i := 1; i < rv.Type().NumIn(); i++ {
+			if t := rv.Type().In(i); t.Kind() != reflect.Interface && !t.Implements(systemAnyType) && !t.Implements(protoMessageType) {
+				errs = append(errs, fmt.Errorf("%w: parameter %d has type '%s', which no item has", errInvalidParams, i, t.String()))
+			}
+		}
 	}
 	if rv.Type().NumOut() != 2 || rv.Type().Out(0) != reflect.TypeOf(system.Collection{}) || rv.Type().Out(1).Name() != "error" {
 		errs = append(errs, errInvalidReturn)
